@@ -65,7 +65,9 @@ def cases(draw):
             extra_pos = [str(draw(st.integers(20, 29)))]
         if surplus and kw and draw(st.booleans()):
             extra_kw = [("zz", str(draw(st.integers(30, 39))))]
-        calls.append({"shape": shape, "args": args, "kws": kws, "extra_pos": extra_pos, "extra_kw": extra_kw, "module": draw(st.sampled_from(["lib", "use", "use"])), "qualified": draw(st.booleans())})
+        calls.append({"shape": shape, "args": args, "kws": kws, "extra_pos": extra_pos, "extra_kw": extra_kw, "module": draw(st.sampled_from(["lib", "use", "use"])), "qualified": draw(st.booleans()),
+                      # the first positional argument is itself a call of the target (same argument text)
+                      "nested": draw(st.integers(0, 29)) == 0})
     # changers, kept legal by simulating the header
     sig = [list(p) for p in params]
     changers = []
@@ -187,6 +189,9 @@ def render(case):
         parts += kws
         parts += ["%s=%s" % tuple(kv) for kv in c["extra_kw"]]
         text = "(%s)" % ", ".join(parts)
+        if c.get("nested") and c["args"] and c["shape"] not in ("starseq", "starmap") and kind != "constructor":
+            callee_here = callee_local if (c["module"] == "lib" or not c["qualified"]) else callee_q
+            text = "(%s)" % ", ".join([callee_here + text] + parts[1:])
         if c["module"] == "lib":
             lib_calls.append("print('r', %s%s is not None)" % (callee_local, text))
         elif c["qualified"]:
@@ -236,6 +241,8 @@ def hazards(case):
         hz.add("star_arguments_at_call_sites")
     if any(c["extra_pos"] or c["extra_kw"] for c in case["calls"]):
         hz.add("extra_star_args_at_call_sites")
+    if case["kind"] != "constructor" and any(c.get("nested") and c["args"] and c["shape"] not in ("starseq", "starmap") for c in case["calls"]):
+        hz.add("call_nested_in_the_arguments_of_another_call")
     return hz
 
 
